@@ -196,16 +196,146 @@ def _judge(case, res, exc, n_models):
     return (None, None) if w is None else (f"estimand {expr} differs from P(event): {w}", "value")
 
 
+def _world_key(var):
+    return json.dumps(sorted([int(n), s_] for n, s_ in var[4]))
+
+
+def _violates_effectiveness(ev):
+    """line 2 of ID*, from the paper: some conjunct V_S = v has V in S with the other polarity"""
+    return any(int(n) == int(var[1]) and s_ != val for var, val in ev for n, s_ in var[4])
+
+
+def _flags3(case):
+    """[fragment 1, fragment 2, single-world]: the membership tests of Props/C07.lean (`inFragmentB`, `inFragment2B`, `oneWorldB` of
+    Y0/Model/IdStar.lean), re-implemented on the GRAPH (no counterfactual graph is built here): the Lean driver is asked for the same
+    three flags on every case and the correspondence check compares them, so the two implementations test each other.
+
+    single-world: a non-empty event dict over variables of the graph all of whose keys carry ONE consistent subscript set.
+    fragment 1:   single-world, every value and every subscript unstarred.
+    fragment 2:   single-world (any polarity) and: the event violates effectiveness (line 2 answers), or -- with K the keys that
+                  survive line 3, A the ancestors of K in the graph whose edges into the subscripted variables are cut, N = A minus
+                  the subscripted variables -- N is one district (line 9 answers), or no key with a starred value has a child in N
+                  and no variable with a starred subscript is in A (line 6 writes no starred symbol as an unstarred subscript)."""
+    ev = case["event"]
+    g = case["g"]
+    nodes = set(G.all_nodes(g))
+    if not ev or any(isinstance(val, (list, tuple)) for _, val in ev):
+        return [0, 0, 0]
+    keys = [C.enc(var) for var, _ in ev]
+    if len(set(keys)) != len(keys) or any(int(var[1]) not in nodes or var[2] != "n" or str(var[3]) != "0" for var, _ in ev):
+        return [0, 0, 0]
+    if len({_world_key(var) for var, _ in ev}) != 1:
+        return [0, 0, 0]
+    subs = [(int(n), s_) for n, s_ in ev[0][0][4]]
+    w = {}
+    for n, s_ in subs:
+        if w.setdefault(n, s_) != s_:
+            return [0, 0, 0]
+    f1 = int(all(val == "m" for _, val in ev) and all(s_ == "m" for s_ in w.values()))
+    if _violates_effectiveness(ev):
+        return [f1, 1, 1]
+    ev2 = [(int(var[1]), val) for var, val in ev if int(var[1]) not in w]
+    if not ev2:
+        return [f1, 1, 1]
+    try:
+        S.topo_order(nodes, [tuple(e) for e in g["di"]])
+    except ValueError:
+        return [f1, 1, 1]      # cyclic graph: make_counterfactual_graph raises, nothing to keep clean
+    pa = {}
+    for u, v_ in g["di"]:
+        pa.setdefault(v_, set()).add(u)
+    anc, stack = set(), [k for k, _ in ev2]
+    while stack:
+        x = stack.pop()
+        if x in anc:
+            continue
+        anc.add(x)
+        if x not in w:
+            stack.extend(pa.get(x, ()))
+    nsi = {x for x in anc if x not in w}
+    comp = {x: x for x in nsi}
+
+    def find(x):
+        while comp[x] != x:
+            x = comp[x]
+        return x
+    for u, v_ in g["bi"]:
+        if u in nsi and v_ in nsi:
+            comp[find(u)] = find(v_)
+    if len({find(x) for x in nsi}) == 1:
+        return [f1, 1, 1]
+    if any(val == "p" and any(u == k and v_ in nsi for u, v_ in g["di"]) for k, val in ev2):
+        return [f1, 0, 1]
+    if any(w[x] == "p" for x in anc if x in w):
+        return [f1, 0, 1]
+    return [f1, 1, 1]
+
+
+def _good_event(case):
+    """`GoodEv`: a dict whose keys are variables of the graph with consistent subscript sets, values named after their variables"""
+    ev = case["event"]
+    nodes = set(G.all_nodes(case["g"]))
+    keys = [C.enc(var) for var, _ in ev]
+    if len(set(keys)) != len(keys) or any(isinstance(val, (list, tuple)) for _, val in ev):
+        return False
+    for var, _ in ev:
+        if int(var[1]) not in nodes or var[2] != "n" or str(var[3]) != "0":
+            return False
+        w = {}
+        for n, s_ in var[4]:
+            if w.setdefault(int(n), s_) != s_:
+                return False
+    return True
+
+
+def remove_tautologies(ev):
+    """line 3 of ID*, from the paper: drop the conjuncts V_S = v with V in S at the same polarity"""
+    return [[var, val] for var, val in ev if not any(int(n) == int(var[1]) and s_ == val for n, s_ in var[4])]
+
+
+def fragment_flags(case):
+    """[fragment 1, fragment 2, single-world, fragment 2R] (see _flags3).  Fragment 2R: a well-formed event (any number of worlds)
+    that violates effectiveness, or all of whose conjuncts are tautologies, or that line 3 reduces to an event of fragment 2
+    (`inFragment2RB` / theorem idstar_sound_fragment2R)."""
+    f = _flags3(case)
+    ev = case["event"]
+    r = 0
+    if ev and _good_event(case):
+        red = remove_tautologies(ev)
+        r = int(_violates_effectiveness(ev) or not red or bool(_flags3(dict(case, event=red))[1]))
+    return f + [r]
+
+
 def in_fragment(case):
-    """the NAMED FRAGMENT of Props/C07.lean (`InFragment`): a non-empty well-formed event over variables of the graph all of
+    """the NAMED FRAGMENT 1 of Props/C07.lean (`InFragment`): a non-empty well-formed event over variables of the graph all of
     whose keys carry ONE subscript set (possibly empty: all factual), with unstarred values and unstarred subscripts
     (P(y_x) with x, y the unstarred values).  Inside it ID* is proved sound, so ANY oracle failure there is a violation."""
-    ev = case["event"]
-    if not ev or case.get("malformed") or not C18._in_domain(case):
+    if not case["event"] or case.get("malformed") or not C18._in_domain(case):
         return False
-    if len({json.dumps(sorted([int(n), s_] for n, s_ in var[4])) for var, _ in ev}) != 1:
+    return bool(fragment_flags(case)[0])
+
+
+def in_fragment2(case):
+    """FRAGMENT 2 of Props/C07.lean (`InFragment2`, theorem idstar_sound_fragment2): single-world events of ANY polarity on which
+    line 6 keeps the polarities (see fragment_flags).  Contains fragment 1.  ANY oracle failure inside it is a violation."""
+    if not case["event"] or case.get("malformed") or not C18._in_domain(case):
         return False
-    return all(val == "m" for _, val in ev) and all(s_ == "m" for var, _ in ev for _, s_ in var[4])
+    return bool(fragment_flags(case)[1])
+
+
+def in_fragment2r(case):
+    """FRAGMENT 2R (`InFragment2R`, theorem idstar_sound_fragment2R): events that lines 2-3 reduce to fragment 2.  Contains
+    fragment 2.  ANY oracle failure inside it is a violation."""
+    if not case["event"] or case.get("malformed") or not C18._in_domain(case):
+        return False
+    return bool(fragment_flags(case)[3])
+
+
+def one_world(case):
+    """single-world events (`OneWorld`): ID* never refuses there and returns Zero iff line 2 fires (theorems)"""
+    if not case["event"] or case.get("malformed") or not C18._in_domain(case):
+        return False
+    return bool(fragment_flags(case)[2])
 
 
 def _evaluate(case, n_models=8, with_unpatched=True):
@@ -235,9 +365,21 @@ def _evaluate(case, n_models=8, with_unpatched=True):
             if fail:
                 strategy = strat_of.get(json.dumps(r))
                 break
-    frag = in_fragment(case)
+    frag, frag2, ow = in_fragment(case), in_fragment2(case) or in_fragment2r(case), one_world(case)
+    if dom and ow and not fail:
+        # theorems idstar_answers_oneworld / idstar_zero_iff_line2_oneworld: on a single-world event ID* never refuses, and it
+        # returns Zero exactly when line 2 fires
+        for r in results:
+            if r == ["unidentifiable"]:
+                fail, kind, strategy = "id_star refused a single-world event (it never does: idstar_answers_oneworld)", "refusal", \
+                    strat_of.get(json.dumps(r))
+                break
+            if r[0] == "ok" and (r[1] == "zero") != _violates_effectiveness(case["event"]):
+                fail, kind, strategy = ("on a single-world event Zero is returned iff the event violates effectiveness "
+                                        "(idstar_zero_iff_line2_oneworld)"), "zero-iff-line2", strat_of.get(json.dumps(r))
+                break
     return {"by_order": by_order, "unpatched": r0, "fail": fail, "kind": kind, "in_domain": dom, "strategy": strategy,
-            "in_fragment": frag}
+            "in_fragment": frag, "in_fragment2": frag2, "one_world": ow, "in_fragment2_strict": in_fragment2(case)}
 
 
 # ------------------------------------------------------------------------------------------ locating a failure in the recursion
@@ -385,9 +527,11 @@ def _local_class(node):
 def _coarse_key(case, r):
     """finding key of a wrong value / wrong Zero located in the recursion: (kind, step of the blamed call, defect patterns
     present at that step); None when the failure cannot be located (then the shrunk input is the key)"""
-    if r.get("in_fragment"):
-        # never listed: the fragment is covered by a theorem, nothing that fails inside it can be a known finding
-        return json.dumps(["IN-FRAGMENT", r["kind"]])
+    if r.get("in_fragment") or r.get("in_fragment2"):
+        # never listed: the fragments are covered by theorems, nothing that fails inside them can be a known finding
+        return json.dumps(["IN-FRAGMENT", 1 if r.get("in_fragment") else 2, r["kind"]])
+    if r["kind"] in ("refusal", "zero-iff-line2"):
+        return json.dumps(["ONE-WORLD", r["kind"]])
     if r["kind"] not in ("value", "zero"):
         return None
     try:
@@ -423,10 +567,15 @@ def run_python(case):
             "in_domain": r["in_domain"], "has_bidirected": bool(case["g"]["bi"]),
             "single_world_leaves": all(single_world(x[1]) for x in by_order if x[0] == "ok"),
             "failure_kind": r["kind"], "in_fragment": r["in_fragment"],
-            "in_fragment_past_line3": bool(r["in_fragment"] and past3), "gen": case.get("gen", "random")}
+            "in_fragment_past_line3": bool(r["in_fragment"] and past3), "gen": case.get("gen", "random"),
+            "in_fragment2": r["in_fragment2"], "in_fragment2_past_line3": bool(r["in_fragment2"] and past3),
+            "coverage": ("not-in-domain" if not r["in_domain"] else "fragment1" if r["in_fragment"] else
+                         "fragment2" if r["in_fragment2_strict"] else "fragment2R" if r["in_fragment2"] else
+                         "single-world-outside" if r["one_world"] else
+                         "multi-world-" + ("zero" if shape == "zero" else "refused" if shape == "unidentifiable" else "estimand"))}
     nontrivial = r["in_domain"] and K.n_worlds(ev) >= 1 and bool(case["g"]["di"] or case["g"]["bi"]) and past3 and \
         shape in ("P", "sum", "prod", "unidentifiable", "zero")
-    out = {"out": ["orders", by_order], "fail": r["fail"], "nontrivial": bool(nontrivial), "tags": tags}
+    out = {"out": ["orders", by_order, fragment_flags(case)], "fail": r["fail"], "nontrivial": bool(nontrivial), "tags": tags}
     ck = _coarse_key(case, r) if r["fail"] else None
     if ck is not None:
         out["finding_key"] = ck
@@ -443,9 +592,12 @@ def run_python(case):
 
 
 def request(case):
+    """C07's own cases ask for the estimands AND the fragment flags (op id_star_all_frag); cases of another check that re-uses this
+    request function (C06 tags its cases with "src") get the plain op id_star_all"""
     g = case["g"]
     gs = C.graph_sexp(g["nodes"], g["di"], g["bi"])
-    return C.enc(["cf", "id_star_all", gs, case["event"], [list(s) for s in K.id_strategies(case["event"])]])
+    op = "id_star_all" if "src" in case else "id_star_all_frag"
+    return C.enc(["cf", op, gs, case["event"], [list(s) for s in K.id_strategies(case["event"])]])
 
 
 def _canon_one(rep):
@@ -457,6 +609,8 @@ def _canon_one(rep):
 def canon_model(case, rep):
     if rep[0] != "ok":
         return ["model-error", rep]
+    if len(rep) > 1 and isinstance(rep[1], list) and rep[1] and rep[1][0] == "frag":
+        return ["orders", [_canon_one(r) for r in rep[2:]], [int(x) for x in rep[1][1:]]]
     return ["orders", [_canon_one(r) for r in rep[1:]]]
 
 
